@@ -15,6 +15,9 @@ def sequential(prop):
             S.append((D(mode=mode, nj=1, pre="all", bs=3, managed=True, calls=[dict(n=5), dict(n=2)]), "dfs", 50))
         elif prop == "C04":
             S.append((D(mode=mode, nj=1, pre=2, bs=1, calls=[dict(n=4, fail=(1,)), dict(n=3, iterfail=1), dict(n=2)]), "dfs", 50))
+            # progress messages on (they are computed in the same finally blocks that clean up after a failure)
+            S.append((D(mode=mode, nj=1, pre=2, bs=1, verbose=1, calls=[dict(n=4, fail=(2,)), dict(n=3, iterfail=1), dict(n=2)]), "dfs", 50))
+            S.append((D(mode=mode, nj=1, pre=2, bs=2, verbose=11, calls=[dict(n=5, fail=(0,)), dict(n=2)]), "dfs", 50))
             S.append((D(mode=mode, nj=1, pre=2, bs=1, managed=True, calls=[dict(n=4, iterfail=0), dict(n=3, fail=(2,)), dict(n=2)]), "dfs", 50))
         elif prop == "C09":
             S.append((D(mode=mode, nj=1, pre="2*n_jobs", bs=2, calls=[dict(n=9)]), "dfs", 50))
@@ -72,6 +75,8 @@ def c04(quick):
         S.append((D(mode=mode, nj=3, pre="2*n_jobs", bs="auto", bsizes=[1, 2], calls=[dict(n=12, fail=(7,)), dict(n=5)]), "random", rnd))
         S.append((D(mode=mode, nj=2, pre=2, bs=1, calls=[dict(n=3, iterfail=0), dict(n=2)]), "dfs", lim))
         S.append((D(mode=mode, nj=2, pre=2, bs=1, calls=[dict(n=3, iterfail="iter"), dict(n=2)]), "dfs", 50))
+        S.append((D(mode=mode, nj=2, pre=2, bs=1, calls=[dict(n=3, iterfail="len"), dict(n=2)]), "dfs", 50))
+        S.append((D(mode=mode, nj=2, pre=3, bs=1, verbose=5, calls=[dict(n=5, fail=(2,)), dict(n=3)]), "random", max(20, rnd // 3)))
         S.append((D(mode=mode, nj=2, pre="all", bs=1, managed=True, calls=[dict(n=3, iterfail="iter"), dict(n=2, iterfail="iter"), dict(n=2)]), "dfs", 50))
         S.append((D(mode=mode, nj=2, pre=2, bs=1, calls=[dict(n=3, iterfail=3), dict(n=2)]), "dfs", lim))
     S.append((D(mode=LIST, nj=2, pre=2, bs=1, rc=False, calls=[dict(n=4, fail=(2,)), dict(n=3)]), "dfs", lim))
